@@ -489,7 +489,7 @@ func (c *c19) run(seed int64, n int, thorough bool, casesFile string) {
 		i := i
 		step(func() {
 			rr := rand.New(rand.NewSource(seed*1000003 + int64(i)))
-			cfg := &genCfg{maxDepth: 1 + rr.Intn(3), maxElems: 1 + rr.Intn(5), maxStr: 40}
+			cfg := &genCfg{maxDepth: 1 + rr.Intn(3), maxElems: 1 + rr.Intn(5), maxStr: 40, contKeys: i%4 == 3}
 			if rr.Intn(20) == 0 {
 				cfg.maxStr = 5000
 			}
